@@ -378,9 +378,13 @@ separate_digits_fractional(Arg, Sep, Num, Cs) :-
         phrase(("~",seq(NCs),"d"), FStr),
         phrase(format_(FStr, [Arg]), Cs0),
         phrase(upto_what(Bs0, .), Cs0, Ds),
-        reverse(Bs0, Bs1),
+        (   Bs0 = [-|Bs00] -> Sign = "-" % the sign is not part of a group
+        ;   Bs00 = Bs0, Sign = ""
+        ),
+        reverse(Bs00, Bs1),
         phrase(groups_of_three(Bs1,Sep), Bs2),
-        reverse(Bs2, Bs),
+        reverse(Bs2, Bs3),
+        append(Sign, Bs3, Bs),
         append(Bs, Ds, Cs).
 
 upto_what([], W), [W] --> [W], !.
